@@ -421,6 +421,34 @@ def rule_r3_r4(facts, rep):
             else:
                 rep.ok(r4, key, "indexer recurses=%s, %s recurses=%s" % (idx, nm, got), fn_.loc)
     rep.floor(r4, "container inline kinds", n, 8)
+    # every other arm that rebuilds its own variant copies the non-text payload (url, title, language ..) position by position: a rename must not touch anything but link keys
+    for var in gi["variants"]:
+        vs_ = fb.last_seg(var["path"])
+        if vs_ == "Link" or len(var["fields"]) < 2:
+            continue
+        arm = t_ck.get(vs_, (False, None))[1]
+        if arm is None or fb.pat_variants(arm["pat"]) == ["_"]:
+            continue
+        pos = {}
+        for lid, p in q.pat_positions(arm["pat"]):
+            if ("::%s." % vs_) in p or p.startswith("%s." % vs_) or ("%s." % vs_) in p:
+                pos[p.rsplit(".", 1)[-1]] = lid
+        rebuilt = [x for x in fb.walk(arm["body"]) if x.get("k") == "call" and x.get("ctor") and (fb.callee(x) or "").endswith("GraphInline::" + vs_)]
+        key = "%s|arm:%s|payload-positional" % (ck.def_, vs_)
+        if not rebuilt:
+            continue            # the arm returns the inline as it is (clone) - nothing is rebuilt
+        bad = []
+        for i, fl in enumerate(var["fields"]):
+            if "GraphInline" in fl["ty"] or i >= len(rebuilt[0]["args"]):
+                continue
+            lid, _nm = _local_id(rebuilt[0]["args"][i])
+            if pos.get(str(i)) is None or lid != pos.get(str(i)):
+                bad.append("field %d is `%s`" % (i, fb.show(rebuilt[0]["args"][i])[:30]))
+        if bad:
+            rep.violation(r4, key, "the rebuilt %s does not keep its payload in place (%s): a rename rewrites something other than link keys - e.g. an image's url and title change places, "
+                          "so every picture in the rewritten notes loses its file" % (vs_, "; ".join(bad)), loc(ck, rebuilt[0]))
+        else:
+            rep.ok(r4, key, "non-text payload copied position by position", loc(ck, rebuilt[0]))
     # Link arm of change_key
     arm = t_ck.get("Link", (False, None))[1]
     key = ck.def_ + "|arm:Link"
@@ -522,3 +550,6 @@ def run(facts, rep, tier):
     c14.rule_r3(facts, rep, "C08-R10")
     c14.rule_r5(facts, rep, "C08-R10b")
     c14.rule_r8(facts, rep, "C08-R10c")
+    rep.rule("C08-R11", "= C13-R8: rename starts from the link under the cursor, which is searched in every block / inline that can hold one (child tables hand out all nested content).")
+    from . import children
+    children.rule_child_tables(facts, rep, "C08-R11")
